@@ -385,7 +385,7 @@ def _gen_rsa(r, tier, f, focus):
     return op
 
   # optional fault episode at the very start (first registry fill)
-  if fault_budget and r.random() < 0.6:
+  if fault_budget and r.random() < 0.45:
     fault_budget = 0
     ops.append({"op": "seam_fault",
                 "kind": r.choice(["open_oserror", "open_oserror",
@@ -409,8 +409,17 @@ def _gen_rsa(r, tier, f, focus):
   for j, a in enumerate(pool):
     dups.setdefault(int(a["n"], 16) if a["n"] else 0, []).append(j)
   dup_groups = [g for g in dups.values() if len(g) > 1]
+  if fault_budget and r.random() < 0.7:
+    fault_budget = 0
+    mid_episode = _rsa_fault_episode(r, n)
+  else:
+    mid_episode = None
   while len(ops) < length:
     u = r.random()
+    if mid_episode is not None and len(ops) >= 2 and u < 0.3:
+      ops.extend(mid_episode)
+      mid_episode = None
+      continue
     if dup_groups and u < 0.08:
       add_check(batch=list(r.choice(dup_groups)))   # only identical moduli
       continue
@@ -450,38 +459,46 @@ def _gen_rsa(r, tier, f, focus):
       ops.append(_rsa_bad_call(r, names))
     elif fault_budget:
       fault_budget = 0
-      if r.random() < 0.5:
-        # storage fault inside a Check loop, then heal and retry
-        spec = {"name": "CheckUnseededRand", "how": "construct",
-                "params": {"storage": {"raise_at": r.randint(1, 3)}},
-                "slot": 7}
-        batch = sub_batch(r, n, min(n, 2), 6)
-        ops.append({"op": "seam_fault", "kind": "storage_raise", "k": 0})
-        ops.append({"op": "check", "check": spec, "batch": batch,
-                    "oracle": [], "no_clean": True})
-        ops.append({"op": "heal"})
-        ops.append({"op": "check", "check": spec, "batch": batch,
-                    "oracle": []})
-      else:
-        ops.append({"op": "seam_fault",
-                    "kind": r.choice(["open_oserror", "open_torn"]),
-                    "k": r.randrange(0, 4)})
-        spec = {"name": r.choice(["CheckOpensslDenylist",
-                                  "CheckKeypairDenylist"]),
-                "how": "construct", "params": {}, "slot": 9,
-                "default_equiv": True}
-        batch = sub_batch(r, n, 1, 4)
-        ops.append({"op": "check", "check": spec, "batch": batch,
-                    "oracle": []})
-        ops.append({"op": "heal"})
-        ops.append({"op": "check", "check": dict(spec, slot=10),
-                    "batch": batch, "oracle": []})
+      ops.extend(_rsa_fault_episode(r, n))
   # always end with something judged after the last fault / restart
   if ops and ops[-1]["op"] not in ("check", "check_all"):
     add_check()
   return {"engine": "A", "kind": "rsa", "profile": "rsa", "focus": focus,
           "knobs": knobs, "pool": pool, "initial_annotations": initial,
           "ops": ops, "timeout": 900.0}
+
+
+def _rsa_fault_episode(r, n):
+  """fault, faulted call, heal, retry: either a storage call that fails in
+  the middle of a batch (some artifacts already annotated), or a resource
+  open that fails / is torn inside a check constructor."""
+  ops = []
+  if r.random() < 0.6:
+    spec = {"name": "CheckUnseededRand", "how": "construct",
+            "params": {"storage": {"raise_at": r.randint(1, 3)}},
+            "slot": 7}
+    batch = sub_batch(r, n, min(n, 3), 6)
+    ops.append({"op": "seam_fault", "kind": "storage_raise", "k": 0})
+    ops.append({"op": "check", "check": spec, "batch": batch,
+                "oracle": [], "no_clean": True})
+    ops.append({"op": "heal"})
+    ops.append({"op": "check", "check": spec, "batch": batch,
+                "oracle": []})
+  else:
+    ops.append({"op": "seam_fault",
+                "kind": r.choice(["open_oserror", "open_torn"]),
+                "k": r.randrange(0, 3)})
+    spec = {"name": r.choice(["CheckOpensslDenylist",
+                              "CheckKeypairDenylist"]),
+            "how": "construct", "params": {}, "slot": 9,
+            "default_equiv": True}
+    batch = sub_batch(r, n, 1, 4)
+    ops.append({"op": "check", "check": spec, "batch": batch,
+                "oracle": []})
+    ops.append({"op": "heal"})
+    ops.append({"op": "check", "check": dict(spec, slot=10),
+                "batch": batch, "oracle": []})
+  return ops
 
 
 def _gen_rsa_large(r, tier, f, focus):
